@@ -63,6 +63,29 @@ def np_hook(interp, d, args, kwargs, node):
             return NArr(sa + sb)
         if sa is not None and isinstance(args[1], Rat):
             return RLECat(sa + [(args[1], ("unknown-length",))])
+    if d == "np.arange" and len(args) == 1:
+        n = interp.to_rat(args[0])
+        if n.is_const() and 0 <= n.as_int() <= 400:
+            return NArr([(Rat.const(i), Rat.const(1)) for i in range(n.as_int())])
+        from .symx import EIDX
+        return NArr([(Rat.atom(EIDX), n)])      # element i of the run is i
+    if d == "np.clip" and len(args) == 3 and isinstance(args[0], NArr) and all(isinstance(x, (Rat, Path)) or x is None for x in args[1:]):
+        import ast as _ast
+        lo = interp.to_rat(args[1]) if args[1] is not None else None
+        hi = interp.to_rat(args[2]) if args[2] is not None else None
+        out = []
+        for f, n in args[0].segs:
+            f = interp.to_rat(f)
+            if lo is not None and interp.truth(interp.compare(_ast.Lt(), f, lo, node), node):
+                out.append((lo, n))
+            elif hi is not None and interp.truth(interp.compare(_ast.Lt(), hi, f, node), node):
+                out.append((hi, n))
+            else:
+                out.append((f, n))
+        return NArr(out, args[0].truncated_to)
+    if d in ("np.all", "np.any") and len(args) == 1 and isinstance(args[0], NMask):
+        ts = [bool(t) for t, n in args[0].segs]
+        return all(ts) if d == "np.all" else any(ts)
     if d in ("np.concatenate", "np.hstack") and len(args) == 1 and isinstance(args[0], (PList, tuple)):
         parts = args[0].items if isinstance(args[0], PList) else list(args[0])
         segs = [_segs(x) for x in parts]
